@@ -53,7 +53,7 @@ def third_party(a):
     v = 0 if a["kind"] == "third_colr0" else 1
     fb = FontBuilder(1000, isTTF=True)
     # a plain glyph between the colour glyphs: adding the SVG table then reorders the glyphs
-    order = [".notdef"] + (["space"] if a["space"] else []) + ["A", "mark", "B", "L", "T"]
+    order = [".notdef"] + (["space"] if a["space"] else []) + ["A", "L", "B", "mark", "T"]  # L: a plain glyph that is a mark base and a kerning partner
     fb.setupGlyphOrder(order)
     cm = {0x41: "A", 0x42: "B", 0x301: "mark"}
     if a["space"]:
@@ -89,9 +89,11 @@ def third_party(a):
     if a["layout"]:
         addOpenTypeFeaturesFromString(fb.font, """languagesystem DFLT dflt;
 markClass mark <anchor 30 700> @TOP;
-feature kern { pos A B -50; pos B A -30; pos B B 10; } kern;
-feature mark { pos base A <anchor 500 720> mark @TOP; pos base B <anchor 350 710> mark @TOP; } mark;
-table GDEF { GlyphClassDef [A B], , [mark], ; } GDEF;""")
+feature kern { pos A B -50; pos B A -30; pos B B 10; pos L A -20; pos T L 15; } kern;
+feature mark { pos base A <anchor 500 720> mark @TOP; pos base B <anchor 350 710> mark @TOP; pos base L <anchor 120 640> mark @TOP; pos base T <anchor 480 705> mark @TOP; } mark;
+table GDEF { GlyphClassDef [A B L T], , [mark], ; } GDEF;""")
+        # plain glyphs (L, T) are bases and kerning partners too: when the SVG table is glued on, colour glyphs move
+        # behind the plain ones, so the relative order of covered glyphs changes
     b = io.BytesIO()
     fb.font.save(b)
     return b.getvalue()
